@@ -152,9 +152,35 @@ func VerifC15_Accessors(cs int) {
 		}
 		VsAssert("accessor-returns-a-value-or-an-error", !o.panicked)
 	}
+	// names of struct fields, exported and unexported (a documented accessor typed without its capital
+	// letter often is one): every accessor in lower case and in camel case, and the fields of the node types
+	fields := append([]string{}, vQFieldNames...)
+	for _, name := range names {
+		if strings.HasPrefix(name, ".") && len(name) > 1 {
+			fields = append(fields, strings.ToLower(name[1:2])+name[2:], strings.ToLower(name[1:]))
+		}
+	}
+	for _, f := range fields {
+		query := "." + f
+		if source != "" {
+			query = source + " | ." + f
+		}
+		o := vQRun(query, vQDocs(which))
+		if o.panicked {
+			VsClassSet("field ." + f + ":" + o.where + ":" + vQMsgClass(o.panicMsg))
+		}
+		VsAssert("field-accessor-returns-a-value-or-an-error", !o.panicked)
+		o = vQRun(strings.TrimPrefix(source+" | ", " | ")+"{ f: ."+f+" } | Only(."+f+" = \"\")", vQDocs(which))
+		VsAssert("field-accessor-in-object-and-filter-returns-a-value-or-an-error", !o.panicked)
+	}
 	VsObserve(tried)
 	VsAssert("some-accessors-were-tried", tried > 0 || len(names) > 0)
 }
+
+// struct fields of the document, node and option types (exported ones are legal accessors)
+var vQFieldNames = []string{"HasBOM", "MaxLivingAge", "nodes", "families", "pointerCache", "familiesMutex", "SimpleNode", "simpleNode", "document", "family",
+	"tag", "value", "pointer", "children", "cachedFamilies", "cachedSpouses", "cachedUniqueIDs", "husband", "wife", "cachedHusband", "cachedWife",
+	"parsedDateRange", "alreadyParsed", "mutex", "Tag", "Value", "simpleDocumentNode", "spouses", "spousesMutex", "uniqueIDsMutex"}
 
 var vQArguments = []string{"First(\"-1\")", "Last(\"-1\")", "First(\"x\")", "Last(\"\")", "First(\"99999999999999999999\")", "Last(\"1.5\")",
 	"First(.Pointer)", "Last(Length)", "First(First(1))", "Only(Length)", "Only(\"true\")", "Only(?)", "NodesWithTagPath(\"\")",
